@@ -222,7 +222,7 @@ def ensure_model(Name, theory_dirs):
     # the .vo files the extraction needs
     ex = open(os.path.join(COQ, "extract", Name + "Extract.v")).read()
     vos = []
-    for m in re.finditer(r"From XV Require Import ([^.]+(?:\.[A-Za-z0-9_]+)*)\.", ex):
+    for m in re.finditer(r"From XV Require Import ([A-Za-z0-9_. \t\n]+?)\.\s*$", ex, re.M):
         for mod in m.group(1).split():
             vos.append("theories/" + mod.replace(".", "/") + ".vo")
     ok, out = coq_build(sorted(set(vos)))
